@@ -595,25 +595,80 @@ class Check(PropertyCheck):
         if not case["eager"] or not obs["upstream_done"]: return None
         return unhx(obs["upstream_got"])
 
+    # frozen copies: the classifier must not widen when the tree under test changes its tables
+    K_HTTP_ALPNS = (b"h3", b"h2", b"http/1.1", b"http/1.0", b"http/0.9")
+    K_HTTP1_ALPNS = (b"http/1.1", b"http/1.0", b"http/0.9")
+
     def known(self, case, obs, failure):
-        # F-C18a / F-C18b: exactly the combinations outside the reachability guard (callback level or handshake level)
+        """F-C18a / F-C18b are statements about alpn_select_callback fed with a server_alpn that did NOT come out of this
+        client's own upstream negotiation.  Only the two ops where the harness itself presets server.alpn can be instances
+        (cb: AppData by hand; hs: ctx.server.alpn by hand).  On the real layer stacks (stack / nested) mitmproxy chooses the
+        upstream offers, the state is unreachable (proved) — a failure there is never excused."""
         if case["op"] == "cb":
             c, s, offers, r = opt_unhex(case["c"]), opt_unhex(case["s"]), [unhx(x) for x in case["offers"]], opt_unhex(obs["r"])
         elif case["op"] == "hs" and not case["swp"]:
             c, s, offers, r = None, opt_unhex(case["s"]), [unhx(x) for x in case["offers"]], unhx(obs["proxy_side"]) or None
-        elif case["op"] == "nested" and obs.get("inner_done"):
-            c, s, offers, r = None, self._stack_upstream(case, obs), [unhx(x) for x in case["offers"]], unhx(obs["inner_got"]) or None
-        elif case["op"] == "stack" and obs.get("client_done"):
-            c, s, offers, r = None, self._stack_upstream(case, obs), [unhx(x) for x in case["offers"]], unhx(obs["client_got"]) or None
         else:
             return None
-        if c is not None: return None
-        if failure.startswith("upstream protocol is known") and s and s not in offers and r in offers \
-                and r in (proxy_tls.HTTP_ALPNS if case["http2"] else proxy_tls.HTTP1_ALPNS):
+        if c is not None or not s: return None
+        alpns = self.K_HTTP_ALPNS if case["http2"] else self.K_HTTP1_ALPNS
+        first_http = next((o for o in offers if o in alpns), None)
+        # F-C18a: upstream known, NOT offered by this client; the client is handed exactly its first HTTP protocol
+        if failure == f"upstream protocol is known ({s!r}) but the client gets {r!r}" \
+                and s not in offers and r is not None and r == first_http:
             return "F-C18a"
-        if failure.startswith("h2 selected although") and s == H2 and H2 in offers and r == H2 and not case["http2"]:
+        # F-C18b: http2 off, upstream is h2 and h2 IS offered; the client is handed h2 (= the upstream protocol)
+        if failure == "h2 selected although http2 is disabled" and not case["http2"] and s == H2 and H2 in offers and r == H2:
             return "F-C18b"
         return None
+
+    def known_selftest(self):
+        """frozen (case, observation, failure) triples: one witness per finding and the near misses of notes/known_audit.txt.
+        Nothing of the tree under test is executed here."""
+        h = lambda *bs: [hx(b) for b in bs]
+        cb = lambda s, http2, offers, c="none": {"op": "cb", "c": c, "s": opt_hex(s), "http2": http2, "offers": offers}
+        up = lambda s, r: f"upstream protocol is known ({s!r}) but the client gets {r!r}"
+        H2OFF = "h2 selected although http2 is disabled"
+        H10 = b"http/1.0"
+        T = [
+            # --- F-C18a
+            (cb(H2, True, h(H11)), {"r": hx(H11)}, up(H2, H11), "F-C18a"),                               # the witness
+            (cb(UNKNOWN1, False, h(UNKNOWN2, H10, H11)), {"r": hx(H10)}, up(UNKNOWN1, H10), "F-C18a"),   # first HTTP/1 protocol
+            ({"op": "hs", "offers": h(H11), "s": hx(H2), "http2": True, "swp": False}, {"proxy_side": hx(H11)}, up(H2, H11), "F-C18a"),
+            # (a) same input class, other clause / other selection
+            (cb(H2, True, h(H11)), {"r": hx(b"zzz")}, f"selected {b'zzz'!r} is not among the client's offers {[H11]!r}", None),
+            (cb(H2, True, h(H11, H10)), {"r": hx(H10)}, up(H2, H10), None),                               # not the FIRST HTTP protocol
+            (cb(H2, False, h(b"h3", H11)), {"r": hx(b"h3")}, up(H2, b"h3"), None),                       # h3 is no HTTP/1 protocol
+            (cb(H2, True, h(H11)), {"r": hx(H11)}, H2OFF, None),
+            # (b) neighbouring inputs, same kind of failure
+            (cb(H2, True, h(H11, H2)), {"r": hx(H11)}, up(H2, H11), None),                                # upstream protocol WAS offered
+            (cb(b"", True, h(H11)), {"r": hx(H11)}, up(b"", H11), None),                                  # upstream refused (seed c18-1)
+            (cb(H2, True, h(H11), c=hx(H11)), {"r": hx(H11)}, up(H2, H11), None),                         # override present
+            ({"op": "stack", "offers": h(H11), "up": "h2", "http2": True, "eager": True},
+             {"client_done": True, "upstream_done": True, "upstream_got": hx(H2), "client_got": hx(H11)}, up(H2, H11), None),
+            ({"op": "nested", "outer": h(H11), "offers": h(H2, H11), "up": "h2", "http2": True, "eager": True},
+             {"inner_done": True, "upstream_done": True, "upstream_got": hx(H2), "inner_got": hx(H11)}, up(H2, H11), None),   # seed c18-3
+            ({"op": "hs", "offers": h(H11), "s": hx(H2), "http2": True, "swp": True}, {"proxy_side": hx(H11)}, up(H2, H11), None),
+            # --- F-C18b
+            (cb(H2, False, h(H2, H11)), {"r": hx(H2)}, H2OFF, "F-C18b"),                                  # the witness
+            ({"op": "hs", "offers": h(H2), "s": hx(H2), "http2": False, "swp": False}, {"proxy_side": hx(H2)}, H2OFF, "F-C18b"),
+            (cb(H2, False, h(H2, H11)), {"r": hx(H11)}, up(H2, H11), None),                               # (a) other clause
+            (cb(None, False, h(H2)), {"r": hx(H2)}, H2OFF, None),                                         # (b) upstream unknown
+            (cb(H11, False, h(H2, H11)), {"r": hx(H2)}, H2OFF, None),                                     # (b) upstream is not h2
+            (cb(b"", False, h(H2)), {"r": hx(H2)}, H2OFF, None),
+            (cb(H2, True, h(H2)), {"r": hx(H2)}, H2OFF, None),                                            # http2 on
+            ({"op": "stack", "offers": h(H2, H11), "up": "h2", "http2": False, "eager": True},
+             {"client_done": True, "upstream_done": True, "upstream_got": hx(H2), "client_got": hx(H2)}, H2OFF, None),
+        ]
+        for case, obs, failure, want in T:
+            got = self.known(case, obs, failure)
+            assert got == want, ("known() classifier self-test", case, obs, failure, "expected", want, "got", got)
+        # the oracle produces exactly the failure texts the classifier matches on
+        assert self.judge(None, H2, True, [H11], H11) == [up(H2, H11)]
+        assert self.judge(None, H2, False, [H2, H11], H2) == [H2OFF]
+
+    def setup(self, tier):
+        self.known_selftest()
 
     # ---- model tie ----------------------------------------------------------------------------------------------
     def model_lines(self, case):
@@ -627,11 +682,12 @@ class Check(PropertyCheck):
             key = json.dumps(case, sort_keys=True)
             obs = self._stash[1] if getattr(self, "_stash", (None,))[0] == key else self.impl(case)
             lines = []
-            if obs["outer_done"] and case["outer"]:
-                lines.append(f"hs 1 none none {int(case['http2'])} " + ",".join(case["outer"]))
-            if obs["inner_done"] and case["offers"] and (obs["upstream_done"] or not case["eager"]):
-                lines.append(f"hs 0 none {opt_hex(self._stack_upstream(case, obs))} {int(case['http2'])} " + ",".join(case["offers"]))
-                if case["eager"]: lines.append(f"srv {int(case['http2'])} nil " + ",".join(case["offers"]))
+            ofs = ",".join(case["offers"]) or "nil"
+            if obs["outer_done"]:
+                lines.append(f"hs 1 none none {int(case['http2'])} " + (",".join(case["outer"]) or "nil"))
+            if obs["inner_done"] and (obs["upstream_done"] or not case["eager"]):
+                lines.append(f"hs 0 none {opt_hex(self._stack_upstream(case, obs))} {int(case['http2'])} " + ofs)
+                if case["eager"]: lines.append(f"srv {int(case['http2'])} nil " + ofs)
                 # the whole session predicted from the inputs alone (upstream peer's choice included)
                 lines.append(f"nested {int(case['http2'])} {int(case['eager'])} {prefs_field(case['up'])} "
                              + (",".join(case["outer"]) or "nil") + " " + (",".join(case["offers"]) or "nil"))
@@ -641,19 +697,19 @@ class Check(PropertyCheck):
             import json
             key = json.dumps(case, sort_keys=True)
             obs = self._stash[1] if getattr(self, "_stash", (None,))[0] == key else self.impl(case)
-            if not case["offers"] or not obs["client_done"] or (case["eager"] and not obs["upstream_done"]): return None
+            if not obs["client_done"] or (case["eager"] and not obs["upstream_done"]): return None   # the oracle reports these
             up = self._stack_upstream(case, obs)
-            lines = [f"hs 0 none {opt_hex(up)} {int(case['http2'])} " + ",".join(case["offers"])]
+            ofs = ",".join(case["offers"]) or "nil"
+            lines = [f"hs 0 none {opt_hex(up)} {int(case['http2'])} " + ofs]
             if case["eager"]:
-                lines.append(f"srv {int(case['http2'])} nil " + ",".join(case["offers"]))
+                lines.append(f"srv {int(case['http2'])} nil " + ofs)
                 # upstream peer's choice and the client's protocol predicted from the inputs alone
-                lines.append(f"chain {int(case['http2'])} {prefs_field(case['up'])} " + ",".join(case["offers"]))
+                lines.append(f"chain {int(case['http2'])} {prefs_field(case['up'])} " + ofs)
             return lines
         if op == "srv":
             return [f"srv {int(case['http2'])} " + (",".join(case["preset"]) or "nil") + " " + (",".join(case["client_offers"]) or "nil")]
-        if not case["offers"]:
-            return None      # no ALPN extension: OpenSSL does not invoke the callback
-        return [f"hs {int(case['swp'])} none {case['s']} {int(case['http2'])} " + ",".join(case["offers"])]
+        # (no ALPN extension: OpenSSL does not invoke the callback — the model's answer for an empty offer list is 'none' as well)
+        return [f"hs {int(case['swp'])} none {case['s']} {int(case['http2'])} " + (",".join(case["offers"]) or "nil")]
 
     def model_obs(self, case, replies):
         return list(replies) if case["op"] in ("stack", "nested") else replies[0]
@@ -663,8 +719,8 @@ class Check(PropertyCheck):
         if op == "nested":
             g = lambda v: "none" if v == "-" else v
             v = []
-            if obs["outer_done"] and case["outer"]: v.append(g(obs["outer_got"]))
-            if obs["inner_done"] and case["offers"] and (obs["upstream_done"] or not case["eager"]):
+            if obs["outer_done"]: v.append(g(obs["outer_got"]))
+            if obs["inner_done"] and (obs["upstream_done"] or not case["eager"]):
                 v.append(g(obs["inner_got"]))
                 if case["eager"]: v.append(",".join(obs["upstream_offers"]) or "nil")
                 n = lambda x: "none" if x in ("-", "none") else x
